@@ -21,7 +21,10 @@ def corrupt_bystander(world, st):
     if not _changing(st):
         return None
     a = world.all_assets()[0]
-    st.post.bal[("by2", a[1])] -= 1
+    sem = st.op.get("sem", {})
+    rcv = sem.get("to") or sem.get("receiver")
+    by = "by1" if rcv == "by2" else "by2"
+    st.post.bal[(by, a[1])] -= 1
     st.post.bal[(st.op["actor"], a[1])] += 1
     return st
 
